@@ -532,6 +532,30 @@ func runR5(c *Ctx) {
 		c.undecided("qframe.QFrame.filter|use site", "-", "QFrame.filter not found")
 		return
 	}
+	// the shortcut may have been extracted into a helper: take the function (the filter method itself or
+	// a root-package function it calls statically) that looks a comparator name up in a string table
+	hasTableLookup := func(f *ssa.Function) bool {
+		hit := false
+		eachInstr(f, func(in ssa.Instruction) {
+			if lk, ok := in.(*ssa.Lookup); ok {
+				if mt, ok := lk.X.Type().Underlying().(*types.Map); ok {
+					if b, ok := mt.Elem().Underlying().(*types.Basic); ok && b.Kind() == types.String {
+						hit = true
+					}
+				}
+			}
+		})
+		return hit
+	}
+	if !hasTableLookup(fn) {
+		eachInstr(fn, func(in ssa.Instruction) {
+			if call, ok := in.(*ssa.Call); ok {
+				if callee := call.Call.StaticCallee(); callee != nil && callee.Pkg == fn.Pkg && hasTableLookup(callee) {
+					fn = callee
+				}
+			}
+		})
+	}
 	found := 0
 	eachInstr(fn, func(in ssa.Instruction) {
 		lk, ok := in.(*ssa.Lookup)
